@@ -65,12 +65,100 @@ def multi_proc_programs(rng, n):
     return out
 
 
+def parse_symtab(dbg):
+    ns = struct.unpack('<I', dbg[:4])[0]; pos = 4; strs = []
+    for _ in range(ns):
+        e = dbg.index(b'\0', pos); strs.append(dbg[pos:e].decode()); pos = e + 1
+    nsym = struct.unpack('<I', dbg[pos:pos + 4])[0]; pos += 4
+    out = []
+    for _ in range(nsym):
+        si, off = struct.unpack('<II', dbg[pos:pos + 8]); pos += 8
+        out.append([strs[si], off])
+    return out
+
+
+def asm_programs(rng, n):
+    """hand-written assembly with PROC / FUNC directives where a compiler would not put them: an entry at byte 0, procedures that are
+    never called, a procedure right behind another's last byte, a procedure as the very last directive, one-byte procedures"""
+    A = asmlib
+    out = []
+    for k in range(n):
+        np_ = rng.randint(1, 5)
+        names = ['p%d' % i if rng.random() < 0.5 else rng.choice(['putc', 'halt', 'a_long_procedure_name_%d', 'Zq%d', 'f%d']).replace('%d', str(i)) + ('' if i else '') for i in range(np_)]
+        names = [nm + ('_%d' % i if names.count(nm) > 1 else '') for i, nm in enumerate(names)]
+        prog = []
+        boot = rng.random() < 0.5
+        if boot:
+            prog.append(A.lab('boot', rng.choice(['PROC', 'FUNC'])))
+        prog += [A.ref('BR', 'go'), A.lab('sp'), A.data(190000), A.lab('tmp'), A.data(0), A.lab('go')]
+        if rng.random() < 0.5:
+            prog.append(A.lab('entry', 'PROC'))
+        called = [nm for nm in names if rng.random() < 0.7]
+        for j, nm in enumerate(called):
+            prog += [A.ref('LDAP', 'r%d' % j), A.ref('STAM', 'tmp'), A.ref('BR', nm), A.lab('r%d' % j)]
+        prog += [A.imm('LDAC', rng.randint(0, 99)), A.ref('LDBM', 'sp'), A.imm('STAI', 2), A.imm('LDAC', 0), A.opr('SVC')]
+        order = list(names); rng.shuffle(order)
+        for nm in order:
+            prog.append(A.lab(nm, rng.choice(['PROC', 'FUNC'])))
+            for _ in range(rng.choice([0, 0, 1, 3, 17, 300])):
+                prog.append(A.imm(rng.choice(['LDAC', 'LDBC']), rng.choice([0, 1, 15, 16, 255, 4096, 70000, -1])))
+            prog += [A.ref('LDBM', 'tmp'), A.opr('BRB')]
+        if rng.random() < 0.3:
+            prog.append(A.lab('tail', 'PROC'))          # a procedure that is the last directive (no instruction of its own)
+            if rng.random() < 0.5:
+                prog.append(A.opr('BRB'))
+        out.append({'id': 'asm%d' % k, 'prog': prog, 'src': A.src_of(prog)})
+    return out
+
+
+def asm_family(chk, d, rng, tier):
+    aexe = vlib.build_cxx("asm_case", ["asm_case.cpp"]); sexe = vlib.build_cxx("sim_case", ["sim_case.cpp"])
+    cases = asm_programs(rng, 120 if tier == "quick" else 3000)
+    ares = asmlib.run_cases(aexe, cases, d, tag="c15a")
+    sims = []; live = []
+    for c, r in zip(cases, ares):
+        if r['status'] != 'ok':
+            continue
+        b = struct.pack('<I', r['hdr']) + bytes(r['img']) + bytes(r['dbg'])
+        sims.append({'id': c['id'], 'bin': b.hex(), 'input': "", 'maxcycles': 0, 'trace': 1, 'dirty': -1, 'maxsteps': 30000}); live.append((c, r))
+    cf = os.path.join(d, "c15a.sim.cases"); of = os.path.join(d, "c15a.sim.out"); vlib.write_ndjson(cf, sims)
+    sd = os.path.join(d, "c15a.scratch"); os.makedirs(sd, exist_ok=True)
+    vlib.sh([sexe, cf, of, sd], check=True, timeout=3000)
+    sres = vlib.read_ndjson(of)
+    recs, keep = [], []
+    for (c, r), sr in zip(live, sres):
+        if sr['status'] != 'exit':
+            continue
+        lprog, lines, total = asmlib.parse_listing(r['listing'])
+        procs = [dct['n'] for dct in lprog if dct['k'] == 'lab' and dct.get('kind') in ('FUNC', 'PROC')]
+        try:
+            symtab = parse_symtab(bytes(r['dbg']))
+        except Exception:
+            chk.violation("symtab-unparsable", "debug tables of %s cannot be parsed" % c['id'], {"prog.S": c['src']})
+            continue
+        tl = []
+        for line in bytes.fromhex(sr['text']).decode('latin-1').split('\n'):
+            m = LINE.match(line)
+            if m and m.group(5) in MN:
+                tl.append([int(m.group(1)), int(m.group(2)), m.group(3) or "", int(m.group(4) or 0), MN[m.group(5)], int(m.group(6))])
+        img = r['img']
+        words = [[i // 4, struct.unpack('<i', bytes(img[i:i + 4]))[0]] for i in range(0, len(img) - 3, 4) if any(img[i:i + 4])]
+        recs.append({'id': c['id'], 'kind': 'asm', 'img': words, 'bytes': img, 'prog': asmlib.strip(lprog), 'procs': procs, 'symtab': symtab, 'lines': tl,
+                     'input': [], 'xprog': {}})
+        keep.append(c)
+    chk.set("assembly_programs_traced", len(recs))
+    chk.vacuity(len(recs) < 50, "too few hand-written assembly programs traced (%d)" % len(recs))
+    return recs, keep
+
+
 def binfmt(chk, keep, byid, d):
     """mechanism grade: the whole file xcmp wrote is BinFormat!Emitted for the procedures of its own listing (closed file, string
     table = procedure names in layout order, symbol k = (k-1, entry of procedure k))"""
     import binlib, xframes
     recs = []
     for c in keep[:3000]:
+        if c['id'] not in byid:
+            continue
         r = byid[c['id']]
         ents = [(int(m.group(1), 16), m.group(3)) for m in xframes.ENTRY.finditer(r['listing'])]
         recs.append({'id': c['id'], 'kind': 'emit', 'file': list(struct.pack('<I', r['hdr'])) + list(r['img']) + list(r['dbg']),
@@ -134,9 +222,11 @@ def run(tier, replay=None):
                 w = struct.unpack('<i', bytes(img[i:i + 4]))[0]
                 if w:
                     words.append([i // 4, w])
-            recs.append({'id': c['id'], 'img': words, 'bytes': img, 'prog': asmlib.strip(lprog), 'procs': procs, 'symtab': symtab, 'lines': tl,
+            recs.append({'id': c['id'], 'kind': 'x', 'img': words, 'bytes': img, 'prog': asmlib.strip(lprog), 'procs': procs, 'symtab': symtab, 'lines': tl,
                          'input': c['input'], 'xprog': c['prog']})
             keep.append(c)
+        arecs, akeep = asm_family(chk, d, rng, tier)
+        recs += arecs; keep += akeep
         can = json.loads(json.dumps(next(r for r in recs if len(r['symtab']) > 2))); can['id'] = 'canary'; can['symtab'][1][1] += 1
         verd = xlib.validate(recs + [can], d, "c15v", module="TraceV", cfg="TraceV.cfg")
         if verd[-1]['v'] != 'bad':
@@ -147,8 +237,8 @@ def run(tier, replay=None):
             if v['v'] == 'ok':
                 ok += 1; nlines += v['n']; nent += v['entries']
             elif v['v'] == 'bad':
-                fam = c['id'].split(':')[0] if not c['id'].startswith(('rand', 'multi')) else re.sub(r'\d+', '', c['id'])
-                chk.violation("%s:%s" % (fam, re.sub(r'\d+', 'N', v['why'])), "program %s: %s" % (c['id'], v['why']), {"prog.x": c['src']})
+                fam = c['id'].split(':')[0] if not c['id'].startswith(('rand', 'multi', 'asm')) else re.sub(r'\d+', '', c['id'])
+                chk.violation("%s:%s" % (fam, re.sub(r'\d+', 'N', v['why'])), "program %s: %s" % (c['id'], v['why']), {"prog.S" if c['id'].startswith('asm') else "prog.x": c['src']})
             elif v['v'] == 'walk':
                 raise vlib.MachineryError("cannot walk the image of %s against its listing: %s" % (c['id'], v['why']))
         binfmt(chk, keep, {r_['id']: r_ for r_ in res if 'dbg' in r_}, d)
